@@ -234,6 +234,15 @@ def cases(thorough):
         if p["metric"] == "supremum":
             out.append(["isrn", dict(p, mode="recurrence_rate", val=0.3,
                                      tau2=3 - p["tau"])])
+    # chunk kernels on row blocks (connected graphs on 3..5 nodes)
+    from ..domains import iso as _iso, adj as _adj, is_connected as _conn
+    for n_ in (3, 4, 5):
+        k_ = 0
+        for (_, _, m_) in _iso(n_, False):
+            if _conn(_adj(n_, False, m_)):
+                k_ += 1
+                if n_ < 5 or k_ % 4 == 0:
+                    out.append(["mpi_chunks", {"n": n_, "mask": m_, "wk": 1}])
     for p in grid(L=S + [7], lag=[-9, -2, -1, 0, 1, 2, 9],
                   mode=["threshold", "recurrence_rate", "threshold_std"]):
         out.append(["jrp", p])
